@@ -31,7 +31,8 @@ def _cplx(N, j):
     return np.exp(2j * np.pi * 0.2 * n + 0.3j * j) + 0.5 * A.weylc(N, j)
 
 
-DATA = {'real': [_real(16, 0), _real(17, 1)], 'complex': [_cplx(16, 0), _cplx(17, 1)]}
+# two records of the SAME length (a setter that only looks at the size must not get away with it) and one of another length / parity
+DATA = {'real': [_real(16, 0), _real(17, 1), _real(16, 2)], 'complex': [_cplx(16, 0), _cplx(17, 1), _cplx(16, 2)]}
 
 COMMON = {'NFFT': [None, 32, 33, 'nextpow2'], 'sampling': [1.0, 4.0], 'detrend': [None, 'mean'],
           'scale_by_freq': [False, True]}
